@@ -283,6 +283,21 @@ func (c *VConn) Submit(u imap.Update, timeout time.Duration) error {
 	return nil
 }
 
+// Push hands an update to gluon without waiting for its acknowledgement; false = stop was closed first.
+func (c *VConn) Push(u imap.Update, stop <-chan struct{}) (ok bool) {
+	defer func() {
+		if recover() != nil { // the channel was closed under us
+			ok = false
+		}
+	}()
+	select {
+	case c.updateCh <- u:
+		return true
+	case <-stop:
+		return false
+	}
+}
+
 // CarryOver makes this connector continue the remote state of an earlier one (server restart).
 func (c *VConn) CarryOver(old *VConn) {
 	old.mu.Lock()
